@@ -247,6 +247,13 @@ def nodes_only_case(ctx, rng, idx):
         return
     ctx.check("C07:equal-content-equal-hash", ha == hb, f"C07:{kind}:nodes-only:same-content-different-hash(insertion order)", wit)
     ctx.check("C07:edit-changes-hash", ha != hc, f"C07:{kind}:nodes-only:labels-1-and-'1'-same-hash", wit)
+    if kind in ("H", "D"):  # string labels that differ only in unicode composition are different nodes
+        try:
+            ua = build(["caf\u00e9", "z"], {"caf\u00e9": {}, "z": {}}, ["caf\u00e9", "z"])
+            ub = build(["cafe\u0301", "z"], {"cafe\u0301": {}, "z": {}}, ["cafe\u0301", "z"])
+            ctx.check("C07:edit-changes-hash", hash_hypergraph(ua) != hash_hypergraph(ub), f"C07:{kind}:nodes-only:labels-differing-in-unicode-composition-same-hash", wit)
+        except Exception as e:
+            ctx.note("unicode-label-build-raised:" + type(e).__name__)
     n0 = rng.choice(ints)
     mds2 = dict(mds)
     mds2[n0] = dict(mds[n0], extra=1)
@@ -339,6 +346,8 @@ def run_case(ctx, rng, idx):
         edits.append(("change-weight-by-one-ulp", lambda g: g.set_weight(*lib_args(kind, k0, rng), math.nextafter(w0, math.inf))))
         edits.append(("change-weight-by-1e-13", lambda g: g.set_weight(*lib_args(kind, k0, rng), w0 + 1e-13)))
     edits.append(("metadata-float-by-one-ulp", lambda g: (g.set_attr_to_hypergraph_metadata("x", 0.3), None)))
+    # two different strings that only differ in unicode composition (precomposed e-acute vs e + combining accent)
+    edits.append(("metadata-string-unicode-composition", lambda g: (g.set_attr_to_hypergraph_metadata("name", "cafe\u0301"), None)))
     edits.append(("metadata-int-beyond-2**53", lambda g: (g.set_attr_to_node_metadata(rng.choice(list(C.nodes)), "big", 2**53 + 1), None)))
     if C.weighted and isinstance(C.edges[k0][0], int):
         edits.append(("weight-int-beyond-2**53", lambda g: g.set_weight(*lib_args(kind, k0, rng), 2**53 + 1)))
@@ -378,6 +387,10 @@ def run_case(ctx, rng, idx):
                 g.set_attr_to_hypergraph_metadata("x", 0.1 + 0.2)  # 0.30000000000000004 vs 0.3 below
                 Sg0 = typed(observe(g))
                 base_cmp = hash_hypergraph(g)
+            if name == "metadata-string-unicode-composition":
+                g.set_attr_to_hypergraph_metadata("name", "caf\u00e9")  # precomposed; the edit below stores the decomposed spelling
+                Sg0 = typed(observe(g))
+                base_cmp = hash_hypergraph(g)
             if name == "metadata-int-beyond-2**53":
                 for n_ in C.nodes:
                     g.set_attr_to_node_metadata(n_, "big", 2**53)  # 2**53 everywhere, then one of them becomes 2**53 + 1
@@ -392,7 +405,7 @@ def run_case(ctx, rng, idx):
         except Exception as e:
             ctx.note(f"edit-raised:{kind}:{name}:{type(e).__name__}")
             continue
-        if name in ("metadata-float-by-one-ulp", "metadata-int-beyond-2**53", "weight-int-beyond-2**53"):
+        if name in ("metadata-float-by-one-ulp", "metadata-int-beyond-2**53", "weight-int-beyond-2**53", "metadata-string-unicode-composition"):
             hv, t = hash_pure(ctx, g, kind, lambda: wit({"edit": name}))
             ctx.check("C07:edit-changes-hash", hv != base_cmp, f"C07:{kind}:edit-kept-hash:{name}", lambda: wit({"edit": name}))
             ctx.event("edit:" + name)
